@@ -9,6 +9,7 @@ use sha2::{Digest, Sha256};
 #[cfg(test)]
 use crate::state::atomic_write_with_lock_timeout;
 use crate::state::{DEFAULT_LOCK_TIMEOUT_MS, SaveOutcome, SharedLockGuard, atomic_write_with_lock};
+use crate::output::path::path_key;
 use crate::{Result, SlocGuardError};
 
 const BASELINE_VERSION: u32 = 2;
@@ -103,7 +104,17 @@ impl Baseline {
             SharedLockGuard::try_acquire(&file, DEFAULT_LOCK_TIMEOUT_MS, "baseline file", path);
 
         let reader = BufReader::new(&file);
-        Ok(serde_json::from_reader(reader)?)
+        let loaded: Self = serde_json::from_reader(reader)?;
+        // Entries written under another spelling of the same path (`./a.rs`, an absolute path)
+        // are the entries of that path
+        Ok(Self {
+            version: loaded.version,
+            files: loaded
+                .files
+                .into_iter()
+                .map(|(path, entry)| (path_key(&path), entry))
+                .collect(),
+        })
     }
 
     /// Save baseline to a JSON file using atomic write pattern.
@@ -136,7 +147,7 @@ impl Baseline {
     /// Add or update a content entry in the baseline.
     pub fn set_content(&mut self, path: &str, lines: usize, hash: String) {
         self.files
-            .insert(path.to_string(), BaselineEntry::content(lines, hash));
+            .insert(path_key(path), BaselineEntry::content(lines, hash));
     }
 
     /// Add or update a structure entry in the baseline.
@@ -147,31 +158,31 @@ impl Baseline {
         count: usize,
     ) {
         self.files.insert(
-            path.to_string(),
+            path_key(path),
             BaselineEntry::structure(violation_type, count),
         );
     }
 
     /// Add or update an entry in the baseline.
     pub fn set(&mut self, path: &str, entry: BaselineEntry) {
-        self.files.insert(path.to_string(), entry);
+        self.files.insert(path_key(path), entry);
     }
 
     /// Get a file entry from the baseline.
     #[must_use]
     pub fn get(&self, path: &str) -> Option<&BaselineEntry> {
-        self.files.get(path)
+        self.files.get(&path_key(path))
     }
 
     /// Remove a file entry from the baseline.
     pub fn remove(&mut self, path: &str) -> Option<BaselineEntry> {
-        self.files.remove(path)
+        self.files.remove(&path_key(path))
     }
 
     /// Check if a file exists in the baseline.
     #[must_use]
     pub fn contains(&self, path: &str) -> bool {
-        self.files.contains_key(path)
+        self.files.contains_key(&path_key(path))
     }
 
     /// Get all file entries in the baseline.
